@@ -260,7 +260,9 @@ int vf_run_case(Src &s, Report &r) {
 					while (k < 13) {
 						if (k < 12 && !rows.empty() && s.chance(3, 4)) {
 							int y = rows[s.pick((uint32_t) rows.size())];
-							if (s.chance(1, 3)) t[k++] = (40u + (y == 24 ? 0 : (unsigned) y)) | (0x01u << 6) | (s.pick(32) << 11);	// full row colour (also moves the active position)
+							unsigned rb = s.u8();
+							if (rb >= 171) t[k++] = (40u + (y == 24 ? 0 : (unsigned) y)) | (0x01u << 6) | (s.pick(32) << 11);	// full row colour (also moves the active position)
+							else if (rb >= 150) t[k++] = 63u | (0x07u << 6) | (s.pick(32) << 11);	// address display row 0: the characters that follow go to the header
 							else t[k++] = (40u + (y == 24 ? 0 : (unsigned) y)) | (0x04u << 6);	// set active position
 							unsigned nc = 1 + s.pick(3);
 							for (unsigned c = 0; c < nc && k < 13; ++c) {
